@@ -457,8 +457,14 @@ def zoom_window_contains_unmasked(values, mask, buffer, pixel_scales, origin):
     mask of 8 (11) shapes <= 6 (10) cells x buffers 0,1,2 + 2500 (50000) random masks <= 9x9 (bounding boxes touching the frame,
     strongly non-square boxes whose square zoom region leaves the frame), buffers 0..3, distinct signed values."""
     import autoarray as aa
-    H, W = mask.shape
+    from bounded.c10_mask_sets import _edited_in_place
     mk = aa.Mask2D(mask=mask.copy(), pixel_scales=pixel_scales, origin=origin)
+    # also for a Mask2D edited in place after its zoom region had been asked for, and for an edited copy
+    return _edited_in_place(lambda mk_, mask_: _zoom_of(aa, mk_, mask_, values, buffer), mk, mask)
+
+
+def _zoom_of(aa, mk, mask, values, buffer):
+    H, W = mask.shape
     ys, xs = np.nonzero(~mask)
     y0, y1, x0, x1 = [int(v) for v in mk.zoom_region]
     if not (y0 <= ys.min() and ys.max() < y1 and x0 <= xs.min() and xs.max() < x1):
